@@ -138,9 +138,12 @@ def main(argv):
             except Exception:
                 confirmed = key.startswith(f"{pid}:harness-exception")
         if not confirmed:
-            print(f"NONDETERMINISM: violation {key} did not reproduce when its case was re-run")
-            rc = max(rc, 2)
-            continue
+            # The case passes when it is re-run alone in this process although it failed inside the sweep: the outcome
+            # depends on what ran before it in the same process (state leaking between objects - a module-level cache, a
+            # shared mutable default - is exactly what the purity / history clauses of several properties exclude). On the
+            # unchanged tree this never happens (every check is run under several seeds and worker counts before it is
+            # registered); it is reported as a violation, flagged as order dependent.
+            v = dict(v, what=v["what"] + " [order dependent: the case passes when re-run alone in a fresh sweep position]")
         path = os.path.join(REPLAY_DIR, f"{pid}-{core.digest([key, v['case']])}.json")
         with open(path, "w") as f:
             json.dump({"property": pid, "key": key, "what": v["what"], "case": v["case"], "detail": v["detail"],
